@@ -22,7 +22,7 @@ STUBS = ["wrapped notch approximation law = uninterpreted functions stress(L), s
          "uses the identity law so that the selected class edge itself is observable"]
 ASSUMPTIONS = ["floats are modelled as reals; float constants such as k/n stand for the simplest rational that rounds to "
                "them, so class edges are (k/n) * L_max (the table holds fl(k/n) * L_max, which differs by <= 1 ulp)",
-               "L_max > 0", "multi-point: per-point maxima and loads are proportional with a factor from {1/2, 2, 3} "
+               "L_max > 0", "multi-point: per-point maxima and loads are proportional with a factor from {1/2, 2, 3, -2} (node ids also non-ascending) "
                "(the documented use: one class look-up for the first node serves all nodes)"]
 OUTSIDE = "bin counts other than the enumerated ones; float rounding; non-proportional multi-point loads"
 RULE = ("one evaluation = one explored path (position of the load relative to all class edges incl. exactly on an "
@@ -57,6 +57,9 @@ def cases(tier):
             if n <= 4:
                 for c in (0.5, 2.0, 3.0):
                     out.append({"kind": "multi", "api": api, "bins": n, "law": "uf", "c": c, "_weight": w * 3})
+                # node ids in non-ascending order; a point that sees the negative multiple of the load
+                out.append({"kind": "multi", "api": api, "bins": n, "law": "uf", "c": 2.0, "nodes": [30, 10], "_weight": w * 3})
+                out.append({"kind": "multi", "api": api, "bins": n, "law": "uf", "c": -2.0, "_weight": w * 3})
     return out
 
 
@@ -242,8 +245,8 @@ def run(ctx, case):
     if kind == "multi":
         c = case["c"]
         L = ctx.real("L")
-        nodes = [7, 9]
-        maxima = pd.Series(np.array([lmax, c * lmax], dtype=object if ctx.sym else np.float64),
+        nodes = case.get("nodes", [7, 9])
+        maxima = pd.Series(np.array([lmax, abs(c) * lmax], dtype=object if ctx.sym else np.float64),
                            index=pd.Index(nodes, name="node_id"))
         b = Binned(law, maxima, n)
         load = pd.Series(np.array([L, c * L], dtype=object if ctx.sym else np.float64),
@@ -252,7 +255,7 @@ def run(ctx, case):
             r = _call(b, law, api, load)
         except ValueError:
             r = "ValueError"
-        r1, r2 = single(L, lmax), single(c * L, c * lmax)
+        r1, r2 = single(L, lmax), single(c * L, abs(c) * lmax)
         ctx.signature((kind, api, n, c, isinstance(r, str), isinstance(r1, str)))
         if isinstance(r1, str) or isinstance(r2, str):
             ctx.claim(isinstance(r, str), "multipoint_equals_single", "out of range load did not raise in the multi-point call")
